@@ -168,9 +168,10 @@ Lemma wf_extras_parts names lvl ex :
 Proof.
   unfold wf_extras, extras_fresh, extras_ok, kept_ok. rewrite !forallb_forall. intro H.
   repeat split; intros e He; specialize (H e He);
-    apply andb_true_iff in H as [H H4]; apply andb_true_iff in H as [H H3]; apply andb_true_iff in H as [H1 H2].
+    apply andb_true_iff in H as [H H5]; apply andb_true_iff in H as [H H4]; apply andb_true_iff in H as [H H3];
+    apply andb_true_iff in H as [H1 H2].
   - assumption.
-  - rewrite (wf_strings_ok _ H3), H4. reflexivity.
+  - rewrite (wf_strings_ok _ H3), H5. reflexivity.
   - rewrite H1, H3. reflexivity.
 Qed.
 
@@ -1178,3 +1179,138 @@ Qed.
 (* totality *)
 Lemma parse_response_total b : parse_response b = None \/ exists r, parse_response b = Some r.
 Proof. destruct (parse_response b) as [r|]; [right; exists r; reflexivity|left; reflexivity]. Qed.
+
+(* ------------------------------------------------------------------ *)
+(* statements of Props/C16.v that combine the lemmas above             *)
+Lemma c16_prefix_proof :
+  forall b, starts_with xssi_prefix b = false -> parse_response (xssi_prefix ++ b) = parse_response b.
+Proof. intros b H. rewrite parse_response_prefixed, parse_response_unprefixed by assumption. reflexivity. Qed.
+
+Lemma c16_status_proof :
+  forall s, dec_status (JStr true s) = Some (status_of_string s) /\
+            (known_status s = false -> status_of_string s = SError s).
+Proof. intro s. split; [reflexivity|apply status_unknown_preserved]. Qed.
+
+Lemma c16_status_not_a_string_proof :
+  forall j, (forall s, j <> JStr true s) -> dec_status j = None.
+Proof. intros j H. destruct j as [| | | |[|] s| |]; try reflexivity. exfalso. apply (H s). reflexivity. Qed.
+
+Lemma c16_full_urls_proof :
+  forall u,
+    (forall x, In x (full_urls u) <-> exists c p, In c (codebases u) /\ In p (packages u) /\ x = c ++ pk_name p) /\
+    length (full_urls u) = (length (codebases u) * length (packages u))%nat /\
+    (forall i j c p, nth_error (codebases u) i = Some c -> nth_error (packages u) j = Some p ->
+                     nth_error (full_urls u) (i * length (packages u) + j) = Some (c ++ pk_name p)).
+Proof.
+  intro u. split; [apply full_urls_in|]. split; [apply full_urls_length|apply full_urls_nth].
+Qed.
+
+Lemma c16_required_wrapper_proof :
+  forall kvs v,
+    decode_wrapper (JObj (remove_key (nm "response") kvs)) = None /\
+    (decode_response v = None -> decode_wrapper (JObj (retype (nm "response") v kvs)) = None).
+Proof. intros. split; [apply wrapper_required_removed; cbn; tauto|apply wrapper_retyped_response]. Qed.
+
+Lemma c16_required_response_proof :
+  forall kvs v,
+    decode_response (JObj (remove_key (nm "protocol") kvs)) = None /\
+    decode_response (JObj (remove_key (nm "app") kvs)) = None /\
+    (dec_string v = None -> decode_response (JObj (retype (nm "protocol") v kvs)) = None) /\
+    (dec_list decode_app v = None -> decode_response (JObj (retype (nm "app") v kvs)) = None).
+Proof.
+  intros. repeat split; try (apply response_required_removed; cbn; tauto);
+    [apply response_retyped_protocol|apply response_retyped_app].
+Qed.
+
+Lemma c16_required_app_proof :
+  forall kvs v,
+    decode_app (JObj (remove_key (nm "appid") kvs)) = None /\
+    decode_app (JObj (remove_key (nm "status") kvs)) = None /\
+    (dec_string v = None -> decode_app (JObj (retype (nm "appid") v kvs)) = None) /\
+    (dec_status v = None -> decode_app (JObj (retype (nm "status") v kvs)) = None).
+Proof.
+  intros. repeat split; try (apply app_required_removed; cbn; tauto);
+    [apply app_retyped_appid|apply app_retyped_status].
+Qed.
+
+Lemma c16_required_ping_event_proof :
+  forall kvs v,
+    decode_status_struct (JObj (remove_key (nm "status") kvs)) = None /\
+    (dec_status v = None -> decode_status_struct (JObj (retype (nm "status") v kvs)) = None).
+Proof. intros. split; [apply status_struct_required_removed; cbn; tauto|apply status_struct_retyped_status]. Qed.
+
+Lemma c16_required_update_check_proof :
+  forall kvs v,
+    decode_update_check (JObj (remove_key (nm "status") kvs)) = None /\
+    (dec_status v = None -> decode_update_check (JObj (retype (nm "status") v kvs)) = None).
+Proof. intros. split; [apply update_check_required_removed; cbn; tauto|apply update_check_retyped_status]. Qed.
+
+Lemma c16_required_urls_proof :
+  forall kvs v,
+    decode_urls (JObj (remove_key (nm "url") kvs)) = None /\
+    decode_url (JObj (remove_key (nm "codebase") kvs)) = None /\
+    (dec_list decode_url v = None -> decode_urls (JObj (retype (nm "url") v kvs)) = None) /\
+    (dec_string v = None -> decode_url (JObj (retype (nm "codebase") v kvs)) = None).
+Proof.
+  intros. repeat split.
+  - apply urls_required_removed; cbn; tauto.
+  - apply url_required_removed; cbn; tauto.
+  - apply urls_retyped_url.
+  - apply url_retyped_codebase.
+Qed.
+
+Lemma c16_required_manifest_proof :
+  forall kvs v,
+    decode_manifest (JObj (remove_key (nm "version") kvs)) = None /\
+    decode_manifest (JObj (remove_key (nm "actions") kvs)) = None /\
+    decode_manifest (JObj (remove_key (nm "packages") kvs)) = None /\
+    (dec_string v = None -> decode_manifest (JObj (retype (nm "version") v kvs)) = None) /\
+    (decode_actions v = None -> decode_manifest (JObj (retype (nm "actions") v kvs)) = None) /\
+    (decode_packages v = None -> decode_manifest (JObj (retype (nm "packages") v kvs)) = None) /\
+    decode_actions (JObj (remove_key (nm "action") kvs)) = None /\
+    decode_packages (JObj (remove_key (nm "package") kvs)) = None /\
+    (dec_list decode_action v = None -> decode_actions (JObj (retype (nm "action") v kvs)) = None) /\
+    (dec_list decode_package v = None -> decode_packages (JObj (retype (nm "package") v kvs)) = None).
+Proof.
+  intros. repeat split; try (apply manifest_required_removed; cbn; tauto).
+  - apply manifest_retyped_version.
+  - apply manifest_retyped_actions.
+  - apply manifest_retyped_packages.
+  - apply actions_required_removed; cbn; tauto.
+  - apply packages_required_removed; cbn; tauto.
+  - apply actions_retyped_action.
+  - apply packages_retyped_package.
+Qed.
+
+Lemma c16_required_package_proof :
+  forall kvs v,
+    decode_package (JObj (remove_key (nm "name") kvs)) = None /\
+    decode_package (JObj (remove_key (nm "required") kvs)) = None /\
+    decode_package (JObj (remove_key (nm "fp") kvs)) = None /\
+    (dec_string v = None -> decode_package (JObj (retype (nm "name") v kvs)) = None) /\
+    (dec_bool v = None -> decode_package (JObj (retype (nm "required") v kvs)) = None) /\
+    (dec_string v = None -> decode_package (JObj (retype (nm "fp") v kvs)) = None).
+Proof.
+  intros. repeat split; try (apply package_required_removed; cbn; tauto).
+  - apply package_retyped_name.
+  - apply package_retyped_required.
+  - apply package_retyped_fp.
+Qed.
+
+Lemma c16_size_is_u64_proof :
+  forall kvs n,
+    get_field (nm "size") kvs = Some (Some (JInt false n)) ->
+    2 ^ 64 <= n -> decode_package (JObj kvs) = None.
+Proof.
+  intros kvs n H Hn. apply (package_field_size _ _ H). apply opt_fail; [discriminate|].
+  unfold dec_u64, dec_uint. replace (n <? 2 ^ 64) with false by (symmetry; apply N.ltb_ge; assumption). reflexivity.
+Qed.
+
+Lemma c16_list_fails_proof :
+  forall A (dec : json -> option A) l x, In x l -> dec x = None -> dec_list dec (JArr l) = None.
+Proof.
+  intros A dec l x Hin Hd. unfold dec_list. induction l as [|y r IH]; [contradiction|].
+  cbn [map all_some]. destruct Hin as [->|Hin].
+  - rewrite Hd. reflexivity.
+  - rewrite (IH Hin). destruct (dec y); reflexivity.
+Qed.
